@@ -58,6 +58,9 @@ func opKeyUse(a []string) string {
 	if strippedTagWhereChecked("key", data) {
 		sb.WriteString(" TAGGED-LABEL")
 	}
+	if keyAlgZeroOnWire(data) {
+		sb.WriteString(" BAD-KEY(alg_0_on_the_wire)")
+	}
 	before := dumpKey(&k)
 	pub, err := k.PublicKey()
 	sb.WriteString(" pub=" + plainErr(err))
